@@ -35,6 +35,8 @@ impl SyntaxParserTrait for AssignmentParser {
             variable_name.push_str(&parser.peek_token().unwrap().to_string().to_lowercase()[..]);
             
             while let Some(token) = parser.consume_token() {
+                #[cfg(feature = "verif")]
+                crate::verif::tick("parse_assignment");
                 match token.deref() {
                     TokenType::Operator(operator) => {
                         if *operator == '=' {
